@@ -1,5 +1,6 @@
 import Dtr.Proofs.Prec
 import Dtr.Proofs.ParserDenotes
+import Dtr.Proofs.RoundTrip
 import Dtr.Model.Eval
 /-!
 # C08 — expressions: C-like precedence, 64-bit two's-complement arithmetic, lazy `ite`
@@ -212,5 +213,39 @@ example : DExpr [.num (some 1), .sym .Plus, .num (some 2), .sym .Times, .num (so
         have := DChain.cons (.sym .Times) .mul [.num (some 3)] (.num 3) [] [] (by decide) (DFactor.num 3) DChain.nil
         simpa using this))
   simpa [BTree.add, BTree.toExpr, BinOp.prec] using h
+
+/-- **Every phrase of the grammar is accepted, with its denotation** — the converse of `C08_parse_denotes`: if the
+tokens `u` are an expression of the grammar denoting `e` and are followed by a token that cannot continue an expression
+(neither a binary operator nor `(`), `parse_expr` consumes exactly `u` and returns `e`; `2·|u| + 2` levels of recursion
+suffice.  Together: the expression parser accepts exactly the language of `Spec/Grammar.lean` and computes its
+denotation — the tree that `C08_chain_sound`/`_complete`/`_unique` characterise by precedence and left associativity. -/
+theorem C08_parse_complete (u : List ATok) (e : Expr) (h : DExpr u e) (fuel : Nat) (st : PState) (rest : List ATok)
+    (hf : 2 * u.length + 2 ≤ fuel) (hst : st.toks = u ++ rest) (hs : RoundTrip.Stop rest) :
+    ∃ st', parseExpr fuel st = .ok e st' ∧ st'.toks = rest :=
+  RoundTrip.cE h fuel st rest hf hst hs
+
+/-- **The grammar is unambiguous**: a token list denotes at most one expression (both denotations are what the
+deterministic parser returns on it). -/
+theorem C08_grammar_unambiguous (u : List ATok) (e e' : Expr) (h : DExpr u e) (h' : DExpr u e') : e = e' := by
+  have hs : RoundTrip.Stop [.sym .Eof] := ⟨_, _, rfl, rfl, by simp⟩
+  obtain ⟨s1, h1, _⟩ := C08_parse_complete u e h (2 * u.length + 2) { toks := u ++ [.sym .Eof] } [.sym .Eof] (Nat.le_refl _) rfl hs
+  obtain ⟨s2, h2, _⟩ := C08_parse_complete u e' h' (2 * u.length + 2) { toks := u ++ [.sym .Eof] } [.sym .Eof] (Nat.le_refl _) rfl hs
+  rw [h1] at h2
+  cases h2
+  rfl
+
+/-- **Round trip**: `parse (render e) = e` — the fully parenthesised rendering of any expression whose calls name table
+functions at their arity is read back as that very expression, consuming exactly the rendering. -/
+theorem C08_parse_render (e : Expr) (hw : e.WF) (fuel : Nat) (st : PState) (rest : List ATok)
+    (hf : 3 * RoundTrip.sz e ≤ fuel) (hst : st.toks = RoundTrip.render e ++ rest) (hs : RoundTrip.Stop rest) :
+    ∃ st', parseExpr fuel st = .ok e st' ∧ st'.toks = rest :=
+  RoundTrip.rt_expr e hw fuel hf st rest hst hs
+
+/-- non-vacuity: a rendering, and a well-formed expression with every kind of node -/
+example : RoundTrip.render (.bin .add (.num 1) (.un .neg (.var "a"))) =
+    [.sym .LParen, .num (some 1), .sym .RParen, .sym .Plus, .sym .LParen, .sym .Minus, .sym .LParen, .ident "a", .sym .RParen, .sym .RParen] := by
+  rfl
+example : Expr.WF (.call "ite" [.bin .lt (.var "a") (.num 2), .un .bnot (.num 0), .call "random" [.num 8]]) := by
+  simp [Expr.WF, Expr.WFList, funcArity]
 
 end Dtr
